@@ -92,6 +92,8 @@ def manifest_roundtrip(tier, focus):
             action = None if is_dir else pick("action%d" % i, ACTIONS, "records")
             micro = pick("micro%d" % i, [0, 123456], "records")
             ents = []
+            if not is_dir and focus == "records" and i == 0 and len(subset) == 1 and sym.flag("same_format_twice"):
+                subset = subset * 2
             for k, f in enumerate(subset):
                 date = mkdate(b, 1577836800 + 1000 * i + k, micro)
                 e = HL.MHLHashEntry(f, b.Hcid(f, 10 * i + k + 1, 5), action, date)
@@ -141,9 +143,11 @@ def manifest_roundtrip(tier, focus):
                 b.require(mh.file_size is not None and truth(mh.file_size == size), "record-size", path)
             # entries are written sorted by format for files, in given order for directories
             got = {e.hash_format: e for e in mh.hash_entries}
-            b.require(len(mh.hash_entries) == len(ents) and sorted(got) == sorted(f for f, *_ in ents), "entry-formats", path)
-            for f, dig, action, inst, struct in ents:
-                e = got[f]
+            b.require(len(mh.hash_entries) == len(ents) and sorted(e.hash_format for e in mh.hash_entries) == sorted(f for f, *_ in ents), "entry-formats",
+                      "%s: %s vs %s" % (path, [e.hash_format for e in mh.hash_entries], [f for f, *_ in ents]))
+            dup = len(set(f for f, *_ in ents)) != len(ents)
+            for k, (f, dig, action, inst, struct) in enumerate(ents):
+                e = got[f] if not dup else mh.hash_entries[k]
                 b.require(truth(e.hash_string == dig), "entry-digest", "%s %s" % (path, f))
                 b.require(e.action == action, "entry-action", "%s %s: %r vs %r" % (path, f, e.action, action))
                 gi = instant(b, e.hash_date)
@@ -169,8 +173,9 @@ def manifest_roundtrip(tier, focus):
             if not is_dir:
                 sz = b.int_attr(rec.size)
                 b.require(sz is not None and truth(sz == size), "independent-size", path)
-            for f, dig, action, inst, struct in ents:
-                e = rec.entry(f)
+            dup = len(set(f for f, *_ in ents)) != len(ents)
+            for k, (f, dig, action, inst, struct) in enumerate(ents):
+                e = rec.entry(f) if not dup else rec.entries[k]
                 b.require(e is not None and truth(e.digest == dig) and e.action == action, "independent-entry", "%s %s" % (path, f))
                 di = b.date_attr(e.hashdate)
                 b.require(di is not None and truth(di[0] == inst[0]) and truth(di[1] == inst[1]), "independent-hashdate", "%s %s" % (path, f))
